@@ -30,7 +30,7 @@ RULE = (
     "history of length >= 2 whose minimum is not at the last position (best != last parameters)"
 )
 ASSUMPTIONS = [
-    "legs 1-2: loss values are distinct; two value maps: well separated, and a float64 plateau with values 1e-10 apart",
+    "legs 1-2: loss values are distinct; four value maps: well separated (seed-dependent offset and scale), a float64 plateau with values 1e-10 apart, smallest value exactly 0.0, values straddling zero",
     "leg 3 (ties): where the statement is ambiguous about ties every reading is accepted (see models/EarlyStopTies.tla); NaN losses are not losses and are not enumerated; +inf is",
     "scripted loss reads the parameter version t written by a counting optimiser (+1 per update), so the "
     "returned t names the update count of the returned parameters",
@@ -84,10 +84,14 @@ def enumerate_cases(tier, seed):
             pats = range(ld + 1) if kind != "var" else [0]
             for pat in pats:
                 for m in range(ld + 1):
-                    for vm in (0, 1):  # 0: well separated values; 1: distinct float64 values 1e-10 apart (a plateau)
+                    # 0: well separated values; 1: distinct float64 values 1e-10 apart (a plateau); 3: the smallest value is exactly
+                    # 0.0 (0, 1, 2, ...); 4: values straddle zero (-1, 0, 1, ...) - a loss of exactly zero is falsy in Python
+                    for vm in (0, 1, 3, 4):
+                        if vm >= 3 and m == 0:
+                            continue
                         cases.append(
                             {
-                                "id": f"direct|{kind}|rb={int(rb)}|pat={pat}|m={m}|values={'wide' if vm == 0 else 'tight'}",
+                                "id": f"direct|{kind}|rb={int(rb)}|pat={pat}|m={m}|values={ {0: 'wide', 1: 'tight', 3: 'zero-min', 4: 'straddle-zero'}[vm]}",
                                 "leg": "direct", "kind": kind, "rb": rb, "pat": pat, "m": m, "seed": seed, "vm": vm,
                             }
                         )
@@ -178,6 +182,8 @@ def _env(seed, vm=0, top=None):
     if vm == 1:
         # losses that are distinct in float64 but closer than float32 resolution: value = 1 + rank * 1e-10
         off, scale = 1e10, 1e-10
+    if vm in (3, 4):
+        off, scale = (-1.0 if vm == 3 else -2.0), 1.0
 
     class ScriptModel(eqx.Module):
         t: jax.Array
